@@ -172,20 +172,22 @@ def check(rep, key, F, fn, witnesses, outcome, no_inline=HELPERS, floor=10, wher
 G3 = [C(x, y) for x in range(3) for y in range(3)]
 G4 = [C(x, y) for x in range(4) for y in range(4)]
 GQ = [C(x, y) for x in range(-1, 4) for y in range(-1, 4)]
+G5 = [C(x, y) for x in range(5) for y in range(5)]
+THOROUGH = False     # set by run(): larger catalogues
 
 
 def tri_witnesses(spec):
-    for a, b, c in itertools.product(G3, repeat=3):
+    for a, b, c in itertools.product(G4 if THOROUGH else G3, repeat=3):
         if orient(a, b, c) == "Collinear":
             continue
         t = {"0": a, "1": b, "2": c}
-        for q in G4:
+        for q in (G5 if THOROUGH else G4):
             pos = tri_position(t, q)
             yield {("arg", 1): t, ("arg", 2): q}, spec(pos), "triangle %s query %s (%s)" % (fmt(t), fmt(q), pos)
 
 
 def rect_witnesses(spec, degenerate=False):
-    vals = [0, 2, 3]
+    vals = [0, 1, 2, 3, 4] if THOROUGH else [0, 2, 3]
     for x0, x1, y0, y1 in itertools.product(vals, repeat=4):
         if x0 > x1 or y0 > y1:
             continue
@@ -198,11 +200,11 @@ def rect_witnesses(spec, degenerate=False):
 
 
 def line_witnesses(spec, degenerate=True):
-    for s, e in itertools.product(G4, repeat=2):
+    for s, e in itertools.product(G5 if THOROUGH else G4, repeat=2):
         if not degenerate and s == e:
             continue
         l = {"start": s, "end": e}
-        for q in G4:
+        for q in (G5 if THOROUGH else G4):
             pos = line_position(l, q)
             yield {("arg", 1): l, ("arg", 2): q}, spec(pos, l, q), "line %s query %s (%s)" % (fmt(l), fmt(q), pos)
 
@@ -216,8 +218,9 @@ def fmt(v):
 
 
 def run(rep, F, tier, only=None, rule="R2.6"):
-    global RULE
+    global RULE, THOROUGH
     RULE = rule
+    THOROUGH = tier == "thorough"
     rep.rule(RULE, "decision tables of the point kernels (Rect, Triangle, Line; intersects / contains / position; bbox helpers; ring crossing step; "
                      "Polygon and collection composition) agree with exact integer reference geometry on every witness of the catalogue")
     bool_out = lambda ex, ev, p: bool(ev.ev(p.ret))
